@@ -61,6 +61,8 @@ THEOREMS = [
     "FaxVerif.C09.Exec.inject_conflict_any_position",
     "FaxVerif.C09.Exec.bad_call_any_position",
     "FaxVerif.C09.Exec.job_blocks_all_handed",
+    "FaxVerif.C09.Exec.job_lines_all_emitted",
+    "FaxVerif.C09.Exec.cms_jobscript_dropped_counterexample",
     "FaxVerif.C09.Exec.malformed_jobs_refused",
     "FaxVerif.C09.Exec.last_declaration_counts",
     "FaxVerif.C09.Exec.refused_state_exact",
@@ -86,7 +88,7 @@ RULE = (
     "0 (55%) / 1 / 2 / 3 malformations drawn over the stages (malformed dictionary, contradictory inject copy, collection of another backend, "
     "wrong call, unsupported operator, ATLAS job-script conflict / dangling / circle, top-level shape / no dataset, a character that cannot be "
     "written out in the job script / an include / a string constant); 9% of the histories meet a template directory that is missing or lacks "
-    "one file. A case is non-trivial when the chain carries >= 10 dictionaries and >= 2 candidate call sites."
+    "one file. Left out on purpose (listed findings `cms-jobscript|…`): add_job_script blocks on the CMS backends. A case is non-trivial when the chain carries >= 10 dictionaries and >= 2 candidate call sites."
 )
 TRUSTED_BASE = [
     "tools/translate/c09_tables.py (reads visit_/call_ method names and the three operator dict literals with Python's ast)",
@@ -134,7 +136,10 @@ LEVEL_NOTE = (
     "Real behaviour found by running: every refusal before the first file leaves the fresh output directory EMPTY; the only way to a non-empty "
     "directory after a refusal is a file that cannot be written out (e.g. a lone surrogate in a string constant / job-script line / include): "
     "the files before it stay, the file is truncated, the runner (last file of all three backends) is never there - never a directory that "
-    "looks like a finished package. Known (C07's root): a refusal inside write_cpp_files skips reset(), the job-script blocks stay on the executor."
+    "looks like a finished package. Known: the CMS executors accept add_job_script blocks (well-formed or contradictory / dangling / circular) "
+    "and drop them - job_blocks_all_handed / job_lines_all_emitted carry the hypothesis `jobScripts = true` (ATLAS only), "
+    "cms_jobscript_dropped_counterexample is the Lean statement, eight concrete inputs are replayed; the generator sends no job-script block to "
+    "CMS in the executor stream, and `jobLinesKept` is evaluated on every accepted package that was sent one. Known (C07's root): a refusal inside write_cpp_files skips reset(), the job-script blocks stay on the executor."
 )
 TECHNIQUE = "Lean 4 theorems on a dispatch model and on a stage model of the executor over tables regenerated from source + malformed-query and executor-history streams against the real pipeline"
 DESIGN_REF = "DESIGN.md §4 C09"
@@ -1220,6 +1225,11 @@ def exec_observe(b, queries, env):
                         pass
                 written.append([f, complete])
             o["written"] = written
+            o["job_blocks"] = [{"name": d["name"], "script": list(d["script"]), "deps": list(d.get("depends_on", []))} for d in o["items"]
+                               if d.get("metadata_type") == "add_job_script" and isinstance(d.get("name"), str) and isinstance(d.get("script"), list)
+                               and all(isinstance(x, str) for x in d["script"]) and isinstance(d.get("depends_on", []), list)]
+            asked = {ln for jb in o["job_blocks"] for ln in jb["script"]}
+            o["emitted"] = sorted({ln for f in listing for ln in (out / f).read_bytes().decode("utf-8", "surrogatepass").split("\n") if ln in asked}) if asked else []
             rp = out / exe._runner_name
             o["runner_exec"] = rp.exists() and bool(rp.stat().st_mode & 0o111)
             o["state_jobs"] = [getattr(x, "name", "?") for x in exe._job_option_blocks]
@@ -1284,12 +1294,19 @@ def gen_exec_query(rng, b, force=None):
     if "inject" in bad:
         blocks += [dict(d, name="vq_" + d["name"]) for d in gen_inject_blocks(rng)[1]]
         broken.append("inject")
+    if b != "atlas":
+        # defect exclusion (listed findings `cms-jobscript|…`): the CMS executors accept add_job_script blocks and drop them
+        blocks = [d for d in blocks if d.get("metadata_type") != "add_job_script"]
     if "md" in bad:
         for _ in range(rng.choice([1, 1, 2])):
-            blocks += gen_key_blocks(rng, b)[1]
+            kb = gen_key_blocks(rng, b)[1]
+            while b != "atlas" and any("script" in d or d.get("metadata_type") == "add_job_script" for d in kb):
+                kb = gen_key_blocks(rng, b)[1]
+            blocks += kb
         broken.append("md")
     elif rng.random() < 0.5:
-        blocks += [dict(d, name="vk_" + str(d.get("name", ""))) if "name" in d and d["metadata_type"] != "add_method_type_info" else d for d in gen_key_blocks(rng, b)[0]]
+        blocks += [dict(d, name="vk_" + str(d.get("name", ""))) if "name" in d and d["metadata_type"] != "add_method_type_info" else d for d in gen_key_blocks(rng, b)[0]
+                   if b == "atlas" or d.get("metadata_type") != "add_job_script"]
     if "foreign" in bad:
         fb = FOREIGN[b]
         blocks.append({"metadata_type": qgen.MDTYPE[fb], "name": rng.choice(["Fs", "As"]), "include_files": ["vp/F.h"], "container_type": "vp::FContainer",
@@ -1428,17 +1445,20 @@ def run_exec_stream(ctx, cases, judge=True):
     live = [(c, obs) for c, obs in zip(cases, observed_all) if obs is not None]
     reqs = [exec_request(c, obs) for c, obs in live]
     spec_reqs = [{"op": "obs", "backend": c["backend"], "refused": o["refused"], "written": o["written"], "runner_exec": o["runner_exec"]} for c, obs in live for o in obs]
-    answers = ctx.driver(DRIVER, reqs + spec_reqs) if reqs else []
-    model_ans, spec_ans = answers[: len(reqs)], iter(answers[len(reqs):])
+    kept_reqs = [_nosur({"op": "kept", "blocks": o.get("job_blocks", []), "emitted": o.get("emitted", [])}) for c, obs in live for o in obs]
+    answers = ctx.driver(DRIVER, reqs + spec_reqs + kept_reqs) if reqs else []
+    model_ans, spec_ans, kept_ans = answers[: len(reqs)], iter(answers[len(reqs): len(reqs) + len(spec_reqs)]), iter(answers[len(reqs) + len(spec_reqs):])
     for (c, obs), a in zip(live, model_ans):
         b = c["backend"]
         runs = a["runs"] if "bad" not in a else [None] * len(obs)
         for j, (o, m) in enumerate(zip(obs, runs)):
-            sp = next(spec_ans)
+            sp, kp = next(spec_ans), next(kept_ans)
             key = f"exec|{b}|{j}|{c['queries'][j]}"
             if m is None:
                 ctx.count("harness:driver-bad-answer")
                 continue
+            if o.get("job_blocks"):
+                ctx.count("exec:job-script blocks sent to " + b)
             ctx.count("exec:outcome:" + ("refused:" + str(o["cls"]) if o["refused"] else "accepted"))
             ctx.count(f"exec:broken={len(c['broken'][j])}")
             ctx.count(f"exec:items={min(len(o.get('items', [])) // 10 * 10, 40)}+")
@@ -1454,6 +1474,9 @@ def run_exec_stream(ctx, cases, judge=True):
             if not sp.get("ok", True):
                 why = ("a refused translation left " + (f"the files {[w[0] for w in o['written']]}" if o["written"] else "nothing") + (" and an executable runner" if o["runner_exec"] else "")
                        + " - not a proper initial part of the package") if o["refused"] else f"a package was returned but the output directory holds {o['written']} (runner executable: {o['runner_exec']})"
+            elif not o["refused"] and not kp.get("ok", True):
+                lost = sorted({ln for jb in o["job_blocks"] for ln in jb["script"]} - set(o["emitted"]))
+                why = f"a package was returned but the job-script lines {lost} the query asked for (add_job_script) appear in no rendered file: silently dropped"
             elif m["malformed"] and not o["refused"]:
                 why = f"the query is malformed ({'+'.join(c['broken'][j])}; model: refused with `{m['cls']}`) and a package is returned"
             elif not o["refused"] and not m["refused"] and (o.get("all_filenames") != [w[0] for w in m["written"]] or o.get("main_script") != m["written"][-1][0]):
@@ -1497,6 +1520,33 @@ def run_exec_stream(ctx, cases, judge=True):
     return fails
 
 
+def cms_jobscript_case(b, how):
+    """the literals of `cms_jobscript_dropped_counterexample` (and its siblings) as queries for backend `b`"""
+    blocks = {"dropped": [_js("vpjob", ["# vp asked for"], [])],
+              "dangling": [_js("vpjob", ["# vp asked for"], ["never_sent"])],
+              "cycle": [_js("vpjob", ["# vp asked for"], ["vpother"]), _js("vpother", ["# vp other"], ["vpjob"])],
+              "conflict": [_js("vpjob", ["# vp asked for"], []), _js("vpjob", ["# vp something else"], [])]}[how]
+    s = _md_src(qgen.metadata(b))
+    for d in blocks:
+        s = f"MetaData({s}, {d!r})"
+    return {"kind": "cms-jobscript", "backend": b, "how": how, "metadata_blocks": blocks, "full_source": f"Select({s}, lambda e: e.As('ba').Count())"}
+
+
+def cms_jobscript_fails(ctx, c):
+    """None, or what is wrong: the Spec clauses `jobLinesKept` (nothing asked for is dropped) and refused-if-malformed
+    (`jobMalformedB`, whatever the backend) on what the real executor does with the query"""
+    o = exec_observe(c["backend"], [c["full_source"]], {})[0]
+    if o["refused"]:
+        return None
+    a = ctx.driver(DRIVER, [{"op": "job", "blocks": o["job_blocks"]}, {"op": "kept", "blocks": o["job_blocks"], "emitted": o["emitted"]}])
+    if a[0].get("malformed"):
+        return f"the job-script blocks are malformed ({'/'.join(k for k in ('conflict', 'missing', 'cyclic') if a[0].get(k))}) and a package is returned: {[w[0] for w in o['written']]}"
+    if not a[1].get("ok", True):
+        lost = sorted({ln for jb in o["job_blocks"] for ln in jb["script"]} - set(o["emitted"]))
+        return f"a package is returned ({[w[0] for w in o['written']]}) and the lines {lost} appear in none of its files"
+    return None
+
+
 LEAK_KEY = "exec-history|atlas|refused-by-visitor-then-clean-query"
 
 
@@ -1517,6 +1567,11 @@ def run(ctx):
     # known findings
     for e in ctx.known_entries("known") + ctx.known_entries("fixed"):
         c = e["input"]
+        if c.get("kind") == "cms-jobscript":
+            why = cms_jobscript_fails(ctx, c)
+            if why:
+                ctx.violation(key=e["key"] if e["status"] == "known" else "regressed:" + e["key"], what=e["what"], case=c, observed={"what happens": why})
+            continue
         if c.get("kind") == "exec-history":
             obs = replay_history(c)
             if obs[0]["refused"] and not obs[-1]["refused"] and "# leaked line" in (obs[-1]["job_lines"] or []):
@@ -1574,6 +1629,10 @@ def search(ctx, broken):
 
 def replay(ctx, rep) -> int:
     c = rep["case"]
+    if c.get("kind") == "cms-jobscript":
+        why = cms_jobscript_fails(ctx, c)
+        print("VIOLATION: " + why if why else "refused, or every line asked for is in a rendered file")
+        return 1 if why else 0
     if c.get("kind") in ("exec", "exec-history"):
         obs = replay_history(c)
         bad = 0
